@@ -14,9 +14,18 @@ Fixpoint strs_eqb (a b : list string) : bool :=
   | _, _ => false
   end.
 
+Fixpoint ns_eqb (a b : list N) : bool :=
+  match a, b with
+  | [], [] => true
+  | x :: a', y :: b' => N.eqb x y && ns_eqb a' b'
+  | _, _ => false
+  end.
+
 Inductive case13 :=
 | S_split (s : string) (cls : oclass) (docs : list string)          (* splitDocuments *)
 | S_crlf (s out : string)                                           (* strings.ReplaceAll(s, "\r\n", "\n") *)
+| S_tails (input : string) (tails : list N)                         (* per decoded document: trailing line breaks seen by a keep-chomped last scalar *)
+| P_res (pkg : string) (r : pkg_res) (cls : oclass) (mkdir write : string)  (* LocalPackageWriter incl. path/index defaulting *)
 | P_write (pkg ann : string) (cls : oclass) (mkdir write : string)  (* LocalPackageWriter, one resource, fresh package *)
 | A_read (index : N) (doc after : node) (nonstr : list string)      (* reader annotations set on a decoded document *)
 | A_write (doc after : node) (cls : oclass) (nonstr : list string). (* writer clearing (the filter sequence of ByteWriter) *)
@@ -29,6 +38,17 @@ Definition agree13 (c : case13) : bool :=
       | r => oclass_eqb13 cls (class_of r)
       end
   | S_crlf s out => String.eqb (crlf_norm s) out
+  | S_tails input tails =>
+      match reader_chunks input with
+      (* an empty chunk decodes to no document *)
+      | Ok cs => ns_eqb (map trailing_nl (filter (fun c => negb (String.eqb c "")) cs)) tails
+      | _ => false
+      end
+  | P_res pkg r cls mk wr =>
+      match pkg_write_res pkg r with
+      | Ok (d, f) => oclass_eqb13 cls COk && String.eqb d mk && String.eqb f wr
+      | x => oclass_eqb13 cls (class_of x)
+      end
   | P_write pkg ann cls mk wr =>
       match pkg_write1 pkg ann with
       | Ok (d, f) => oclass_eqb13 cls COk && String.eqb d mk && String.eqb f wr
